@@ -81,7 +81,7 @@ PROPS = {
     "C01": [("Rank.v", r"^C01_")],
     "C02": [("Sketch.v", r"^C02_"), ("LayerA.v", r"^A3_")],
     "C03": [("C03.v", r".")],
-    "C04": [("C04dense.v", r"."), ("C04pag.v", r"."), ("LayerA.v", r"^A[1-7]_")],
+    "C04": [("C04dense.v", r"."), ("C04pag.v", r"."), ("C04sparse.v", r"."), ("LayerA.v", r"^A[1-7]_")],
     "C05": [("C05.v", r"."), ("LayerA.v", r"^A8_")],
     "C06": [("Wire.v", r"^C06_")],
     "C07": [("Wire.v", r"^C07_")],
@@ -92,7 +92,7 @@ PROPS = {
     "C12": [("Sketch.v", r"^C12_")],
     "C13": [("Sketch.v", r"^C13_")],
     "C14": [("C04pag.v", r"reads_pure|foreach|compact|key_at_rank"), ("C04dense.v", r"foreach|key_at_rank|total|min_index|max_index"), ("C20.v", r"queries_transparent|inv_lower|inv_upper")],
-    "C15": [("C04dense.v", r"inv_clear|clear_like_new"), ("C04pag.v", r"clear"), ("Sketch.v", r"^C15_"), ("C05.v", r"clear")],
+    "C15": [("C04dense.v", r"inv_clear|clear_like_new"), ("C04pag.v", r"clear"), ("Sketch.v", r"^C15_"), ("C05.v", r"clear"), ("C04sparse.v", r"clear")],
     "C16": [("Sketch.v", r"^C16_"), ("C04dense.v", r"reweight"), ("C04pag.v", r"reweight"), ("LayerA.v", r"^A5_|bscale")],
     "C17": [("ChangeMapping.v", r".")],
     "C18": [("C18.v", r".")],
